@@ -1,17 +1,22 @@
 #!/bin/bash
-# development aid: apply a seeded change to /repo, run the given checks (quick tier), undo the change.
+# development aid: run checks (quick tier) against a seeded change.
 #   tools_seeded.sh <seeded-id> <check id> [<check id> ...]
+# The change is applied to a scratch worktree of /repo's HEAD (NUSYM_REPO points the machinery at it), so that /repo is not
+# touched while other runs use it; the worktree is removed afterwards.  (The official way - git -C /repo apply, run, git -C
+# /repo checkout -- .  - gives the same result: NUSYM_REPO defaults to /repo.)
 # prints one line per check:  <seeded-id> <check> exit=<code> <first VIOLATION line>
 set -u
 id="$1"; shift
 patch="/verif/seeded/$id/patch.diff"
 [ -f "$patch" ] || { echo "no $patch"; exit 2; }
-if ! git -C /repo diff --quiet; then echo "/repo has uncommitted changes"; exit 2; fi
-git -C /repo apply "$patch" || { echo "patch does not apply"; exit 2; }
-trap 'git -C /repo checkout -- . ' EXIT
+wt="/tmp/nusym-seeded-$id"
+git -C /repo worktree remove --force "$wt" >/dev/null 2>&1
+git -C /repo worktree add -q "$wt" HEAD || exit 2
+trap 'git -C /repo worktree remove --force "$wt" >/dev/null 2>&1' EXIT
+git -C "$wt" apply "$patch" || { echo "patch does not apply"; exit 2; }
 cd /verif
 for c in "$@"; do
-  out=$(timeout 3000 python3-vt check.py "$c" --tier quick 2>&1)
+  out=$(NUSYM_REPO="$wt" NUSYM_EVIDENCE_DIR="/tmp/nusym-seeded-evidence" timeout 3000 python3-vt check.py "$c" --tier quick 2>&1)
   code=$?
   echo "$id $c exit=$code $(echo "$out" | grep -m1 '^VIOLATION' ) $(echo "$out" | grep -A1 -m1 '^VIOLATION' | tail -1 | cut -c1-220)"
   echo "$out" | grep '^INCONCLUSIVE' | head -2 | cut -c1-300
